@@ -85,10 +85,6 @@ pub fn summarize(r: &TaxReport, skip_ticker: Option<&str>) -> RepSum {
         if Some(h.ticker.as_str()) == skip_ticker {
             continue;
         }
-        // a zero holding and an absent holding are the same thing
-        if h.quantity.is_zero() && h.total_cost.is_zero() {
-            continue;
-        }
         s.holdings.insert(h.ticker.clone(), (h.quantity, h.total_cost));
     }
     s
@@ -136,17 +132,14 @@ pub fn compare(a: &RepSum, b: &RepSum, tol: Decimal, years: bool) -> Diff {
     for k in b.disposals.keys() {
         if !a.disposals.contains_key(k) { d.deep.push(format!("disposal {} {} only in second", k.0, k.1)); }
     }
-    for (k, x) in &a.holdings {
-        match b.holdings.get(k) {
-            None => d.deep.push(format!("holding {k} only in first ({} @ {})", x.0, x.1)),
-            Some(y) => {
-                if !near(x.0, y.0, tol) { d.deep.push(format!("holding {k}: quantity {} vs {}", x.0, y.0)); }
-                if !near(x.1, y.1, tol) { d.deep.push(format!("holding {k}: cost {} vs {}", x.1, y.1)); }
-            }
-        }
-    }
-    for k in b.holdings.keys() {
-        if !a.holdings.contains_key(k) { d.deep.push(format!("holding {k} only in second")); }
+    // a zero holding and an absent holding are the same thing
+    let zero = (Decimal::ZERO, Decimal::ZERO);
+    let keys: std::collections::BTreeSet<&String> = a.holdings.keys().chain(b.holdings.keys()).collect();
+    for k in keys {
+        let x = a.holdings.get(k).unwrap_or(&zero);
+        let y = b.holdings.get(k).unwrap_or(&zero);
+        if !near(x.0, y.0, tol) { d.deep.push(format!("holding {k}: quantity {} vs {}", x.0, y.0)); }
+        if !near(x.1, y.1, tol) { d.deep.push(format!("holding {k}: cost {} vs {}", x.1, y.1)); }
     }
     if years {
         for (k, x) in &a.years {
